@@ -6,6 +6,7 @@
 mod common;
 mod inputs;
 mod trace;
+mod types;
 mod props;
 #[allow(dead_code)]
 mod models;
